@@ -207,4 +207,4 @@ LEVEL_TEXT = (
     "per-image fingerprints (pixels + full line-metadata model), record groups and root attrs."
 )
 LEVEL_NOTE = "Trusted: frozen layout/exposure tables; C01/C03/C04/C16 oracles reused per node."
-TECHNIQUE = "Hypothesis-generated multi-image products; reference-model oracle on tree shape with per-image fingerprints"
+TECHNIQUE = "Hypothesis-generated multi-image products; reference-model oracle on tree shape with per-image fingerprints; injected transient read faults"
